@@ -109,3 +109,22 @@ def _functions_frozen(rep, cases):
         if not c.get('functions_frozen', True):
             rep.violation('the builtin table FUNCTIONS was modified by an evaluation: %r' % [cl['src'] for cl in c['calls']],
                           {'case': engine.slim(c)})
+
+
+def check_C12(tier, seed):
+    rep = Report('C12', tier, seed)
+    devs = engine.open_deviations()
+    quick = tier == 'quick'
+    rep.notes['rule'] = ('TLC: host object of 6 nested shapes (lists, dicts, tuple holding a list, shared inner list) x 11 store forms '
+                         '(name, index, compound name, compound index, via items/enumerate, chains, literals holding variables) x all '
+                         'sequences of <= 2 mutations through the stored or the source side (MC_C12): Separation / HostOnlyDirect; '
+                         'code: the same scenarios replayed + random aliasing programs; object identities compared up to a bijection')
+    res = engine.model_check(rep, 'MC_C12.tla', 'MC_C12.cfg', timeout=900, coverage=not quick)
+    rep.exhaustive = True
+    engine.model_check(rep, 'MC_C12.tla', 'MC_C12.cfg', deviations=['MutAssignNoCopy'], expect_violation=True, timeout=600)
+    if not rep.machinery:
+        engine.replay_emitted(rep, _emitted(res), devs, sample=2500 if quick else 19074, seed=seed, what='TLC scenario')
+    scns = families.alias_programs(seed, 2000 if quick else 20000)
+    cases = [c for c in vmrun.run_scenarios(scns) if 'harness_error' not in c]
+    engine.judge_cases(rep, cases, devs, what='aliasing program')
+    return rep.finish()
